@@ -464,7 +464,7 @@ pub fn stream_cfgs(tier: &str) -> Vec<(StreamCfg, Bounds)> {
         let mut c = base.clone();
         f(&mut c);
         c.name = name.to_string();
-        let wall = if tier == "quick" { 25 } else { 400 };
+        let wall = if tier == "quick" { 150 } else { 900 };
         v.push((
             c,
             Bounds::new(d)
@@ -837,7 +837,7 @@ impl Scenario for DgramSc {
 
 pub fn dgram_cfgs(tier: &str) -> Vec<(DgramCfg, Bounds)> {
     let q = tier == "quick";
-    let wall = Duration::from_secs(if q { 20 } else { 300 });
+    let wall = Duration::from_secs(if q { 150 } else { 900 });
     vec![
         (
             DgramCfg {
